@@ -97,6 +97,10 @@ def overrides_for(base):
             outs.append((tid, "start", "2025-01-08-10:00"))
             outs.append((tid, "start", "2025-06-02-09:00"))   # beyond the project end: unschedulable in that scenario only
             outs.append((tid, "start", "2025-01-06-09:00"))   # a pin EARLIER than the task's dependency bound (a pin overrides it, a bound would not)
+    # a date typed on a CONTAINER for one scenario only: its children receive it by inheritance in that scenario (and below)
+    cont = next((t["id"] for t in base["tasks"] if t.get("children")), None)
+    if cont:
+        outs.append((cont, "end", "2025-01-16-17:00") if base["alap"] else (cont, "start", "2025-01-09-10:00"))
     return outs
 
 
